@@ -44,20 +44,25 @@ package load
 //@   modifies nothing
 //@   call Reduce#0: invariant result >= 1
 
+// minRt: the smallest per-bucket average latency, each average rounded to the NEAREST millisecond (ghost fold gMinRt over
+// the buckets Reduce visits; empty buckets do not count), 1000 when there is none
+//@ ghost var gMinRt float64
 //@ func (as *adaptiveShedder) minRt
 //@   property C02
 //@   float real
 //@   requires collection.rwOK(as.rtCounter)
-//@   ensures  result <= 1000.0
-//@   modifies nothing
-//@   call Reduce#0: invariant result <= 1000.0
+//@   ensures  result <= 1000.0 && result == gMinRt
+//@   modifies gMinRt
+//@   ghost at before Reduce#0: gMinRt = 1000.0
+//@   ghost at lit 0 entry: gMinRt = ite(b.Count > 0 && math.Round(float64(b.Sum) / float64(max(b.Count, 1))) < gMinRt, math.Round(float64(b.Sum) / float64(max(b.Count, 1))), gMinRt)
+//@   call Reduce#0: invariant result <= 1000.0 && result == gMinRt
 
 //@ func (as *adaptiveShedder) maxFlight
 //@   property C02
 //@   float real
 //@   requires shOK(as)
 //@   ensures  result >= 1.0
-//@   modifies nothing
+//@   modifies gMinRt
 
 //@ func (as *adaptiveShedder) highThru
 //@   property C02
@@ -67,7 +72,7 @@ package load
 //@   ghost at after overloadFactor#0: gF = ret
 //@   ensures  result == (as.avgFlying > gMF*gF && real(as.flying) > gMF*gF)
 //@   ensures  gMF >= 1.0 && 0.1 <= gF && gF <= 1.0
-//@   modifies gMF, gF
+//@   modifies gMF, gF, gMinRt
 
 // sheds only if overloaded (now, or within the last second while shedding) and the in-flight count exceeds 10% of the capacity estimate
 //@ func (as *adaptiveShedder) shouldDrop
@@ -83,7 +88,7 @@ package load
 //@   ensures  gOver == ret(systemOverloadChecker, 0) && as.flying == old(as.flying) && as.avgFlying == old(as.avgFlying)
 //@   ensures  adVal[as.overloadTime] == ite(gOver, now, old(adVal[as.overloadTime]))
 //@   ensures  implies(result && !gOver, old(abVal[as.droppedRecently]) && old(adVal[as.overloadTime]) != 0 && now - old(adVal[as.overloadTime]) < time.Second)
-//@   modifies gOver, gHot, gMF, gF, adVal[as.overloadTime], abVal[as.droppedRecently], calls(systemOverloadChecker)
+//@   modifies gOver, gHot, gMF, gF, gMinRt, adVal[as.overloadTime], abVal[as.droppedRecently], calls(systemOverloadChecker)
 
 //@ func (as *adaptiveShedder) addFlying
 //@   property C02
